@@ -244,6 +244,24 @@ impl Property for C06 {
             }
         };
         let words_dealing = rng.words.clone();
+        // ---- a second dealer of another secret, alive on the same thread while the first one hands out its
+        // shares (and pulled from in between): two dealers are two sharings, whatever the order of use
+        let mut decoy = if ctx.ch.chance(1, 3) {
+            let t2 = 1 + ctx.ch.index(5);
+            let k2 = 1 + ctx.ch.index(3);
+            let mut s2 = Vec::new();
+            for i in 0..k2 {
+                s2.extend_from_slice(&shamir_big::to_le24(&BigUint::from(1000u32 + i as u32)));
+            }
+            let mut r2 = ScriptRng::new(vec![], tail ^ 0xdec0);
+            ctx.stats.probe("second_live_dealer");
+            Sharks(t2 as u32).dealer_rng(&s2, &mut r2).ok().map(|e| (e, r2))
+        } else {
+            None
+        };
+        if let Some((d, _)) = decoy.as_mut() {
+            let _ = d.next();
+        }
         // ---- shares: t+1 from next() for inference, then a drawn mix of next()/gen()
         let mut dealt: Vec<Dealt> = Vec::new();
         let mut take = |sh: Share, via_gen: bool| -> Result<Dealt, Violation> {
@@ -295,6 +313,11 @@ impl Property for C06 {
         }
         let n_more = ctx.ch.index(t + 4);
         for _ in 0..n_more {
+            if let Some((d, r2)) = decoy.as_mut() {
+                if ctx.ch.chance(1, 3) {
+                    let _ = if ctx.ch.chance(1, 2) { d.next() } else { Some(d.gen(r2)) };
+                }
+            }
             if ctx.ch.chance(2, 3) {
                 let sh = evaluator.gen(&mut rng);
                 dealt.push(take(sh, true)?);
